@@ -95,7 +95,13 @@ where
         _ => None,
     };
     let mut out = [None, None];
-    for (k, op) in ["+", "-", "/"].iter().enumerate() {
+    // every operation through both entry points: the operator and the trait method it forwards to
+    for (k, op) in ["+", "-", "/", "HasRefUnit::add", "HasRefUnit::sub", "HasRefUnit::div"].iter().enumerate() {
+        let via_method = k >= 3;
+        let k = k % 3;
+        if via_method && level > 0 {
+            continue;
+        }
         rep.inc("transitions");
         let mk_case = || case(key, op, json!({"a": show_q(a, b.vname(iu)), "b": show_q(bb, b.vname(iv))}));
         let qa = Q::new(a, uu);
@@ -106,16 +112,25 @@ where
             1 => a - bb,
             _ => a / bb,
         });
-        let got: Result<(Option<Q::UnitType>, A), String> = guard(|| match k {
-            0 => {
+        let got: Result<(Option<Q::UnitType>, A), String> = guard(|| match (k, via_method) {
+            (0, false) => {
                 let r = qa + qb;
                 (Some(r.unit()), r.amount())
             }
-            1 => {
+            (1, false) => {
                 let r = qa - qb;
                 (Some(r.unit()), r.amount())
             }
-            _ => (None, qa / qb),
+            (_, false) => (None, qa / qb),
+            (0, true) => {
+                let r = <Q as HasRefUnit>::add(qa, qb);
+                (Some(r.unit()), r.amount())
+            }
+            (1, true) => {
+                let r = <Q as HasRefUnit>::sub(qa, qb);
+                (Some(r.unit()), r.amount())
+            }
+            (_, true) => (None, <Q as HasRefUnit>::div(qa, qb)),
         });
         if same_unit {
             rep.inc("same_unit_cases");
@@ -129,7 +144,7 @@ where
                             rep.violation("C03/unit", mk_case(), format!("{:?}", u), format!("{:?}", uu));
                         }
                     }
-                    if k < 2 {
+                    if k < 2 && !via_method {
                         out[k] = Some(*g);
                     }
                 }
@@ -182,7 +197,7 @@ where
                 rep.violation("C03/unit", mk_case(), format!("{:?}", u), format!("{:?}", uu));
             }
         }
-        if k < 2 {
+        if k < 2 && !via_method {
             out[k] = Some(g);
         }
         match (&spec, rat_of(g)) {
